@@ -54,6 +54,7 @@ class Scheduler:
         self.aborting = False
         self.deadlock = None  # list of (tid, why) when detected
         self.livelock = False
+        self.internal_error = None
         self.nsteps = 0
         self.choices = []  # tid chosen at every choice point
         self.nchoice_points = 0  # choice points with more than one enabled thread
@@ -75,30 +76,40 @@ class Scheduler:
 
     def _boot(self, mt: MThread):
         self._by_ident[_rt.get_ident()] = mt
-        mt.sem.acquire()
-        if self.aborting:
-            mt.status = "done"
-            return
-        mt.status = "ready"
-        sys.settrace(self._global_trace)
         try:
-            mt.fn()
-        except Abort:
-            pass
-        except BaseException as e:  # noqa: BLE001 - reported by the caller
-            mt.exc = e
-        finally:
-            sys.settrace(None)
-            mt.status = "done"
-            mt.cond = None
-        if not self.aborting:
-            self._micro(mt)
+            mt.sem.acquire()
+            if self.aborting:
+                mt.status = "done"
+                return
+            mt.status = "ready"
+            sys.settrace(self._global_trace)
             try:
-                self._switch(mt)
+                mt.fn()
             except Abort:
                 pass
+            except BaseException as e:  # noqa: BLE001 - reported by the caller
+                mt.exc = e
+            finally:
+                sys.settrace(None)
+                mt.status = "done"
+                mt.cond = None
+            if not self.aborting:
+                self._micro(mt)
+                self._switch(mt)
+        except Abort:
+            pass
+        except BaseException as e:  # noqa: BLE001 - a bug of the harness itself (observer, chooser): never hang
+            self._fatal(e)
 
-    def run(self, join_timeout=30.0):
+    def _fatal(self, e):
+        if self.internal_error is None:
+            self.internal_error = e
+        try:
+            self._abort_all(None)
+        except Abort:
+            pass
+
+    def run(self, join_timeout=30.0, stall_timeout=120.0):
         for mt in self.threads:
             mt.thread = _rt.Thread(target=self._boot, args=(mt,), daemon=True)
             mt.thread.start()
@@ -106,11 +117,17 @@ class Scheduler:
             self._switch(None)
         except Abort:
             pass
-        self._main_sem.acquire()
+        if not self._main_sem.acquire(timeout=stall_timeout):
+            self.aborting = True
+            for mt in self.threads:
+                mt.sem.release()
+            raise RuntimeError("scheduler stalled: no managed thread reported back (harness bug)")
         for mt in self.threads:
             mt.thread.join(join_timeout)
             if mt.thread.is_alive():
                 raise RuntimeError(f"scheduler: thread {mt.tid} did not terminate")
+        if self.internal_error is not None:
+            raise RuntimeError(f"scheduler: harness error inside a managed thread: {self.internal_error!r}") from self.internal_error
 
     # ---------------------------------------------------------------- the baton
     def _enabled(self):
@@ -172,13 +189,25 @@ class Scheduler:
     # ---------------------------------------------------------------- observation
     def _micro(self, me):
         if self.observer is not None and not self.aborting:
-            self.observer.micro(me.tid)
+            try:
+                self.observer.micro(me.tid)
+            except Abort:
+                raise
+            except BaseException as e:  # noqa: BLE001
+                self._fatal(e)
+                raise Abort()
 
     def op(self, what):
         """a harness-level or shim-level visible operation of the current thread"""
         me = self.current()
         if me is not None and self.observer is not None and not self.aborting:
-            self.observer.op(me.tid, what)
+            try:
+                self.observer.op(me.tid, what)
+            except Abort:
+                raise
+            except BaseException as e:  # noqa: BLE001
+                self._fatal(e)
+                raise Abort()
 
     def mark(self, phase, yield_here=False):
         me = self.current()
